@@ -8,6 +8,13 @@ export VERIF_ROOT="$PWD"
 export GOFLAGS=-mod=mod GOPROXY=off GOSUMDB=off GOTOOLCHAIN=local
 mkdir -p .work/bin
 TAGS="-tags verif"
+# VERIF_REPO=<dir> (development aid only, never used by MANIFEST commands): build against a
+# scratch copy of paulmach/osm instead of /repo, without touching go.mod.
+if [ -n "${VERIF_REPO:-}" ]; then
+  sed "s#=> /repo#=> ${VERIF_REPO}#" go.mod > .work/alt.mod
+  cp go.sum .work/alt.sum
+  TAGS="$TAGS -modfile=$PWD/.work/alt.mod"
+fi
 
 build() { # variant
   case "$1" in
